@@ -3,6 +3,7 @@ CONSTANTS
   MaxLen = 4
   MaxDepth = 99
   Export = TRUE
+  Variants = TRUE
 SPECIFICATION Spec
 INVARIANT TypeOK
 INVARIANT AliasesAgree
